@@ -12,6 +12,7 @@
 import importlib
 import time
 
+import crosshair.core_and_libs  # noqa: F401  (runs CrossHair's own registrations first, ours override them)
 import crosshair.core as _core
 import z3
 from crosshair import statespace as _statespace
